@@ -381,7 +381,7 @@ impl StrExt for str {
                     }
 
                     prev_wildcard = true;
-                } else if prev_wildcard {
+                } else if prev_wildcard && !matches!(c, '?' | '*') {
                     let chunk = &pattern[chunk_start..i];
                     chunks.push(chunk.wildcards_to_regex());
 
